@@ -4,4 +4,6 @@ SPECS = [
     ("PACK_ENTRY_LEN_COMPRESSED", "crates/core/src/repofile/packfile.rs", r"const ENTRY_LEN_COMPRESSED: u32 = ([^;]+);", "HeaderEntry::ENTRY_LEN_COMPRESSED"),
     ("PACK_COMP_OVERHEAD", "crates/core/src/repofile/packfile.rs", r"const COMP_OVERHEAD: u32 = ([^;]+);", "packfile constants::COMP_OVERHEAD (crypto overhead of the header)"),
     ("PACK_LENGTH_LEN", "crates/core/src/repofile/packfile.rs", r"const LENGTH_LEN: u32 = ([^;]+);", "packfile constants::LENGTH_LEN (trailing header-length field)"),
+    ("PACKER_MAX_COUNT", "crates/core/src/blob/packer.rs", r"const MAX_COUNT: u32 = ([^;]+);", "blob/packer.rs constants::MAX_COUNT (blobs per pack before it is saved)"),
+    ("INDEXER_MAX_COUNT", "crates/core/src/index/indexer.rs", r"const MAX_COUNT: usize = ([^;]+);", "index/indexer.rs constants::MAX_COUNT (blobs per index file before the indexer saves on its own)"),
 ]
